@@ -10,6 +10,7 @@ pub mod c11;
 pub mod matrix;
 pub mod loops;
 pub mod directed13;
+pub mod directed;
 pub mod c14;
 pub mod c15;
 pub mod c16;
